@@ -1,5 +1,5 @@
 import OdxVerif.Props.C05Nested
-import OdxVerif.Proofs.CompTrunc2Leaf
+import OdxVerif.Proofs.CompTrunc2Cov
 /-! # C05, nested tier, second part (task W26) — "nothing is invented" as a theorem about the WHOLE decoder model
     `Proofs/CompTrunc2.lean` instruments the model's decoder with a ghost log: every call of `extractCore` — the one place
     where `DecodeState.extract_atomic_value` takes bytes out of the message — records the byte range it requests
@@ -437,5 +437,50 @@ example : ∃ dr bl, Reads true 0 (.dct (.leading .bytefield none true 8)) { msg
   · cases h
   · exact ⟨dr, bl, hr, h1.symm, h2.symm⟩
   · exact absurd h (by decide)
+
+/-! ### W19's `Reads` is complete for the requests of a strict run (W19, NOT proved (2)) -/
+
+/-- the log of `decodeMessageL` is the log of the run of the instrumented decoder -/
+theorem decodeMessageL_log (bs : Option Nat) (ps : List Param) (msg : Bytes) (st : Bool) :
+    (decodeMessageL bs ps msg st).2 = resLog (decodeDopL modelFuel (.struct bs ps) { st := { msg := msg } } st) := by
+  unfold decodeMessageL
+  cases decodeDopL modelFuel (.struct bs ps) { st := { msg := msg } } st with
+  | ok p => rfl
+  | error p => rfl
+
+/-- **`Reads` is complete (strict mode, whole model).**  Every byte range `Request.decode(msg)` / `Response.decode(msg)` requests
+    from the message outside an end-marker probe — whether the run returns or raises — is an object the decoder "has to read" in
+    the sense of W19 (`MsgReads true bs ps msg start stop`: there is a derivation of `Reads` with exactly these bytes), or it is
+    the body of a MIN-MAX object and lies inside the message.  So in strict mode W19's relation misses no `extractCore` call that
+    could be cut off; it was "by inspection" before (`Proofs/CompTrunc2Cov.lean`: `cov_decode_all`, one step lemma per decoding
+    function, 33 rules). -/
+theorem C05_requests_are_reads (bs : Option Nat) (ps : List Param) (msg : Bytes) (e : LEntry)
+    (he : e ∈ (decodeMessageL bs ps msg true).2) (hp : e.probe = false) :
+    MsgReads true bs ps msg e.start e.stop ∨ e.stop ≤ msg.length := by
+  rw [decodeMessageL_log] at he
+  rcases (cov_decode_all modelFuel).1 (.struct bs ps) { st := { msg := msg } } e he with h | h
+  · cases h
+  · rcases h.2 with h1 | ⟨dr, bl, hr, h2, h3⟩ | h1
+    · rw [hp] at h1; cases h1
+    · exact .inl ⟨dr, bl, hr, h2, h3⟩
+    · exact .inr h1
+
+/-- … hence, in strict mode, a request that exceeds the message is an object of `Reads` that is cut off: W26's
+    `C05_truncated_rejected_all` (strict) also follows from W19's `C05_truncated_rejected_nested` -/
+theorem C05_short_request_is_reads (bs : Option Nat) (ps : List Param) (msg : Bytes) (e : LEntry)
+    (he : e ∈ (decodeMessageL bs ps msg true).2) (hp : e.probe = false) (hshort : msg.length < e.stop) :
+    MsgReads true bs ps msg e.start e.stop := by
+  rcases C05_requests_are_reads bs ps msg e he hp with h | h
+  · exact h
+  · omega
+
+example (bs : Option Nat) (ps : List Param) (msg : Bytes) (e : LEntry)
+    (he : e ∈ (decodeMessageL bs ps msg true).2) (hp : e.probe = false) (hshort : msg.length < e.stop) :
+    decodeMessage bs ps msg true = .error .decode :=
+  C05_truncated_rejected_nested true bs ps msg e.start e.stop (C05_short_request_is_reads bs ps msg e he hp hshort) hshort
+
+/-- instance: the cut-off request `6…8` of `c5Req_log` is W19's `c5Req_reads` — obtained from the log, not by a hand-made derivation -/
+example : MsgReads true none c5Req [0x22, 0x02, 0x0a, 0x0b, 0x0c, 0x1a, 0x1b] 6 8 :=
+  C05_short_request_is_reads none c5Req _ ⟨6, 8, false⟩ (by rw [c5Req_log]; decide) rfl (by decide)
 
 end OdxVerif.Codec
